@@ -27,6 +27,11 @@ func init() {
 func genTxVis(g *gen, n int, tier string, w *bufio.Writer) {
 	for c := 0; c < n; c++ {
 		fmt.Fprintf(w, "# case %d\n", c)
+		if c%4 == 1 {
+			// a commit that the log rejects (one entry larger than a log record): no trace, lock released
+			fmt.Fprintf(w, "failcommit small=%d big=%d pos=%d sync=%d\n", g.pick(1, 3, 20), 32760+g.intn(9000), g.pick(0, 1, 2), g.pick(0, 2))
+			continue
+		}
 		fmt.Fprintf(w, "vis seed=%d keys=%d rounds=%d readers=%d\n", g.intn(1<<30), g.pick(2, 3, 8, 40), g.pick(30, 60, 120), g.pick(1, 2, 4))
 	}
 }
@@ -113,18 +118,127 @@ func txVisScenario(r *runner, ws []string) (out string) {
 	return fmt.Sprintf("ok reads=%d rounds=%d", reads.Load(), rounds)
 }
 
+// failcommit: a read-write transaction with `small` small puts and one put of `big` bytes (beyond one log record when
+// big > 32750) placed at position pos among the keys; the commit must fail as a whole: no key of the transaction is
+// visible now or after a restart, a second finish reports closed, and a new writer can begin at once.
+func failCommitScenario(r *runner, ws []string) (out string) {
+	defer func() {
+		if p := recover(); p != nil {
+			out = "bad panic " + strings.ReplaceAll(fmt.Sprint(p), " ", "_")
+		}
+	}()
+	small, big, pos, syncMode := kvInt(ws[1]), kvInt(ws[2]), kvInt(ws[3]), kvInt(ws[4])
+	x := &engRun{r: r, dir: r.tempDir()}
+	if err := openCrashEngine(x, syncMode, 1<<20, true); err != nil {
+		return "bad open " + errTok(err)
+	}
+	defer func() {
+		if x.e != nil {
+			x.e.Close()
+		}
+	}()
+	if err := x.e.Put([]byte("base"), []byte("B")); err != nil {
+		return "bad put " + errTok(err)
+	}
+	tx, err := x.e.BeginTransaction(false)
+	if err != nil {
+		return "bad begin " + errTok(err)
+	}
+	var keys []string
+	for i := 0; i <= small; i++ {
+		k := fmt.Sprintf("f%02d", i)
+		keys = append(keys, k)
+		v := []byte("s")
+		if i == pos%(small+1) {
+			v = make([]byte, big)
+		}
+		if err := tx.Put([]byte(k), v); err != nil {
+			return "bad txput " + errTok(err)
+		}
+	}
+	cerr := tx.Commit()
+	expectFail := 13+3+4+big > 32768
+	if expectFail && cerr == nil {
+		return "bad commit-of-oversized-entry-succeeded"
+	}
+	if !expectFail && cerr != nil {
+		return "bad commit-failed " + errTok(cerr)
+	}
+	if rerr := tx.Rollback(); rerr == nil {
+		return "bad second-finish-accepted"
+	}
+	// a new writer must be able to begin at once
+	type res struct{ err error }
+	ch := make(chan res, 1)
+	go func() {
+		t2, err := x.e.BeginTransaction(false)
+		if err == nil {
+			t2.Put([]byte("after"), []byte("A"))
+			err = t2.Commit()
+		}
+		ch <- res{err}
+	}()
+	select {
+	case rr := <-ch:
+		if rr.err != nil {
+			return "bad next-writer " + errTok(rr.err)
+		}
+	case <-time.After(3 * time.Second):
+		x.e = nil // the engine is wedged: do not try to close it
+		return "bad lock-leaked-after-failed-commit (a new read-write transaction could not begin within 3 s)"
+	}
+	check := func(when string) string {
+		for _, k := range keys {
+			_, err := x.e.Get([]byte(k))
+			if expectFail && err == nil {
+				return "bad failed-transaction-left-a-trace key=" + k + " " + when
+			}
+			if !expectFail && err != nil {
+				return "bad committed-key-missing key=" + k + " " + when
+			}
+		}
+		for _, kv := range [][2]string{{"base", "B"}, {"after", "A"}} {
+			v, err := x.e.Get([]byte(kv[0]))
+			if err != nil || string(v) != kv[1] {
+				return "bad lost key=" + kv[0] + " " + when
+			}
+		}
+		return ""
+	}
+	if p := check("before-restart"); p != "" {
+		return p
+	}
+	if err := x.e.Close(); err != nil {
+		return "bad close " + errTok(err)
+	}
+	x.e = nil
+	if err := openCrashEngine(x, syncMode, 1<<20, false); err != nil {
+		return "bad reopen " + errTok(err)
+	}
+	if p := check("after-restart"); p != "" {
+		return p
+	}
+	return fmt.Sprintf("ok failed=%v keys=%d", expectFail, len(keys))
+}
+
 func runTxVis(r *runner) {
 	for {
 		ws, ok := r.next()
 		if !ok {
 			break
 		}
-		if ws[0] != "vis" {
+		if ws[0] != "vis" && ws[0] != "failcommit" {
 			r.emit("bad-op")
 			continue
 		}
 		done := make(chan string, 1)
-		go func() { done <- txVisScenario(r, ws) }()
+		go func() {
+			if ws[0] == "failcommit" {
+				done <- failCommitScenario(r, ws)
+			} else {
+				done <- txVisScenario(r, ws)
+			}
+		}()
 		select {
 		case s := <-done:
 			r.emit(s)
